@@ -16,11 +16,11 @@ func init() {
 		Assume:    []string{"sequentially consistent atomics", "the loader itself is a single scheduling point between its start and its end"},
 		Quick: []Scenario{
 			grp("ok-3", 60), grp("err-late", 60), grp("panic-2", 60), grp("exit-2", 60), grp("panicnil-2", 60), grp("err-then-panicnil", 60), grp("forget-err-3", 60), grp("forget-panic-3", 60), grp("reuse-2keys", 60), grp("panic-reuse", 60), grp("err-then-exit", 60), grp("panic-then-exit", 60), grp("err-then-panic", 60), grp("exit-then-err", 60),
-			mk("F1-three-callers", 6, "2", 60), mk("F2-error", 4, "2", 60), mk("F3-panic", 6, "2", 60), mk("F3n-panic-nil", 6, "2", 60), mk("F4-goexit", 6, "2", 60), mk("F5-with-writers", 6, "2", 60), mk("F6-two-keys", 8, "2", 60), mk("F7-err-then-exit", 6, "2", 60),
+			mk("F1-three-callers", 6, "2", 60), mk("F2-error", 4, "2", 60), mk("F2c-error-with-cost-function", 4, "2", 60), mk("F3-panic", 6, "2", 60), mk("F3n-panic-nil", 6, "2", 60), mk("F4-goexit", 6, "2", 60), mk("F5-with-writers", 6, "2", 60), mk("F6-two-keys", 8, "2", 60), mk("F7-err-then-exit", 6, "2", 60),
 		},
 		Thorough: []Scenario{
 			grp("ok-3", 600), grp("err-late", 600), grp("panic-2", 600), grp("exit-2", 600), grp("panicnil-2", 600), grp("err-then-panicnil", 600), grp("forget-err-3", 600), grp("forget-panic-3", 600), grp("reuse-2keys", 600), grp("panic-reuse", 600), grp("err-then-exit", 600), grp("panic-then-exit", 600), grp("err-then-panic", 600), grp("exit-then-err", 600), grp("reuse-3t", 900), grp("panic-reuse-3t", 900),
-			mk("F1-three-callers", 16, "3", 900), mk("F2-error", 16, "3", 900), mk("F3-panic", 16, "3", 900), mk("F3n-panic-nil", 16, "3", 900), mk("F4-goexit", 16, "3", 900), mk("F5-with-writers", 16, "3", 900), mk("F6-two-keys", 16, "3", 900), mk("F7-err-then-exit", 16, "3", 900),
+			mk("F1-three-callers", 16, "3", 900), mk("F2-error", 16, "3", 900), mk("F2c-error-with-cost-function", 16, "3", 900), mk("F3-panic", 16, "3", 900), mk("F3n-panic-nil", 16, "3", 900), mk("F4-goexit", 16, "3", 900), mk("F5-with-writers", 16, "3", 900), mk("F6-two-keys", 16, "3", 900), mk("F7-err-then-exit", 16, "3", 900),
 		},
 	})
 }
